@@ -4,8 +4,10 @@ package th
 
 import (
 	"fmt"
+	"reflect"
 	"strings"
 
+	"github.com/openconfig/goyang/pkg/yang"
 	gpb "github.com/openconfig/gnmi/proto/gnmi"
 	"github.com/openconfig/ygot/ygot"
 	"github.com/openconfig/ygot/ytypes"
@@ -358,4 +360,86 @@ func WitnessF32(rec *ev.Rec) {
 		}
 		return false, ""
 	})
+}
+
+// ---- F21 / F22: DeleteNode ----------------------------------------------------------------------------
+
+const (
+	F21 = "F21-delete-whole-list"
+	F22 = "F22-emptied-ordered-map-not-pruned"
+)
+
+// IsNotFound matches DeleteNode's NotFound error.
+func IsNotFound(err error) bool {
+	return err != nil && (strings.Contains(err.Error(), "NotFound") || strings.Contains(err.Error(), "not found"))
+}
+
+func rootSchema(v *model.Variant, root ygot.GoStruct) *yang.Entry {
+	return v.Schema().SchemaTree[reflect.TypeOf(root).Elem().Name()]
+}
+
+// WitnessF21: DeleteNode on a keyed-list path without keys answers NotFound and deletes nothing.
+func WitnessF21(rec *ev.Rec) {
+	rec.Witness(F21, func() (bool, string) {
+		v := variants.Get("vtu")
+		a := model.NewNode(v.Root)
+		k := Child(Child(a, "Top"), "Keyed")
+		f := k.SI.ByName["KU8"]
+		k.List["KU8"] = []*model.Entry{model.NewEntry(f, []model.Val{{K: model.KUint8, U: 5}})}
+		root := model.Build(a)
+		p := model.PathProto([]model.PElem{{Name: "top"}, {Name: "keyed"}, {Name: "k-u8"}})
+		err := ytypes.DeleteNode(rootSchema(v, root), root, p)
+		if err != nil {
+			return true, "DeleteNode(/top/keyed/k-u8) on a tree holding k-u8[k=5]: " + err.Error()
+		}
+		if got := model.ObserveNorm(v, root); len(model.LeafMap(got, model.InstOpts{})) != 0 {
+			return true, "DeleteNode(/top/keyed/k-u8) returned nil but the list is still there"
+		}
+		return false, ""
+	})
+}
+
+// WitnessF22: an ordered map emptied by deleting its last entry stays non-nil, so the surrounding
+// container is not pruned.
+func WitnessF22(rec *ev.Rec) {
+	rec.Witness(F22, func() (bool, string) {
+		v := variants.Get("vtu")
+		a := model.NewNode(v.Root)
+		o := Child(Child(a, "Top"), "Ordered")
+		f := o.SI.ByName["O1"]
+		e := model.NewEntry(f, []model.Val{{K: model.KStr, S: "a"}})
+		o.List["O1"] = []*model.Entry{e}
+		root := model.Build(a)
+		p := model.PathProto(model.EntryElems([]model.PElem{{Name: "top"}, {Name: "ordered"}}, f, 0, e.Key))
+		if err := ytypes.DeleteNode(rootSchema(v, root), root, p); err != nil {
+			return true, "DeleteNode(/top/ordered/o1[k=a]): " + err.Error()
+		}
+		got := model.Observe(v, root)
+		if c := got.Cont["Top"]; c != nil {
+			return true, "after deleting the only entry /top/ordered/o1[k=a] the containers on the way are still present:\n" + got.Dump()
+		}
+		return false, ""
+	})
+}
+
+// OrderedEmptied: some ordered list that held entries in `before` has none in `after`.
+func OrderedEmptied(before, after *model.Node) bool {
+	count := func(n *model.Node) map[string]int {
+		c := map[string]int{}
+		for _, s := range model.Sites(n) {
+			for _, f := range s.N.SI.Fields {
+				if f.Kind == model.FOrdList && len(s.N.List[f.Name]) > 0 {
+					c[model.ElemsID(s.Elems)+"/"+f.Name] = len(s.N.List[f.Name])
+				}
+			}
+		}
+		return c
+	}
+	b, a := count(before), count(after)
+	for k := range b {
+		if a[k] == 0 {
+			return true
+		}
+	}
+	return false
 }
